@@ -273,6 +273,13 @@ def _types(ts: Tuple[V, ...]) -> str:
 
 
 def run(ctx: Ctx, repo: Repo, tier: str) -> None:
+    # concrete small values first: they decide also when a new code path is beyond the abstract scenarios below
+    from .concrete_infer import concrete_rules
+    concrete_err = None
+    try:
+        concrete_rules(ctx, repo, tier, member="R-C04.8", order="R-C04.8")
+    except AnalysisError as e:
+        concrete_err = e  # the abstract scenarios below still decide their clauses; re-raised at the end if they are silent
     ctx.trust("typing aliases List/Set/Dict/DefaultDict/Tuple/Union denote the builtin containers of the same name",
               "Union[...] admits each of its members; Dict[str, Union[..]] admits every str-keyed dict whose values are admitted")
     ctx.assume("merging of TypedDicts is decided exhaustively for <=3 TypedDicts over <=2 keys and limits 0..3; "
@@ -286,3 +293,5 @@ def run(ctx: Ctx, repo: Repo, tier: str) -> None:
     infer_no_memory(ctx, repo, "R-C04.6")
     from .compat_rules import compat_predicates
     compat_predicates(ctx, repo, "R-C04.7", ("types_equal", "is_typed_dict", "is_any"))
+    if concrete_err is not None:
+        raise concrete_err
